@@ -120,6 +120,9 @@ MUTANTS = [
 MUTANTS.append(('M71', K, 'const ANGULAR_TOLERANCE: f64 = 1E-6;', 'const ANGULAR_TOLERANCE: f64 = 1E-2;', 'C01', 'R01.2', 'angular tolerance 0.57 degrees'))
 MUTANTS.append(('M72', K, '        let cy0 = cx1 * f64::sin(q1) + cy1 * f64::cos(q1);', '        let cy0 = cx1 * f64::sin(q1) - cy1 * f64::cos(q1);', 'C03', 'R03.5', 'lateral offset enters the wrist centre with the wrong sign (b != 0 only)'))
 MUTANTS.append(('M73', K, '            -s5 * c6, s5 * s6, c5,', '            -s5 * c6, s5 * c6, c5,', 'C03', 'R03.5', 'one entry of R_ce'))
+MUTANTS.append(('M74', CA, '                        let flags = if p < extension.len() - 1 {', '                        let flags = if p < extension.len() {', 'C12', 'R12.5', 'the target waypoint of a Cartesian step is flagged as interpolated'))
+MUTANTS.append(('M75', F, '        let transformed_joints = self.robot.inverse_continuing(&tcp_frame, previous);', '        let transformed_joints = self.robot.inverse_continuing(&tcp_no_frame, previous);', 'C17', 'R17.5', 'forward_transformed solves for the untransformed pose'))
+MUTANTS.append(('M76', U, '        .map(|&v| if v < 0.0 { -1 } else { 1 })', '        .map(|&v| if v <= 0.0 { 1 } else { -1 })', 'C20', 'R20.7', 'axis sign inverted'))
 MUTANTS = [m for m in MUTANTS if m[0] not in ('M34',)]
 MUTANTS.append(('M34', T, "    fn constraints(&self) -> &Option<Constraints> {\n        self.robot.constraints()\n    }    \n}\n\n// Define the Cart",
                 "    fn constraints(&self) -> &Option<Constraints> {\n        &None\n    }    \n}\n\n// Define the Cart", 'C08', 'R08.4', 'Base reports no limits'))
